@@ -249,13 +249,14 @@ def handleExpect (ds : DS) (j : Json) : IO DS := do
   let created := J.boolOf e "created"
   let post := J.arrOf res "post"
   let acct := post.find? (fun a => J.strOf a "addr" == derived)
-  let factory := post.find? (fun a => J.strOf a "addr" == J.strOf j "callee")
+  let factoryAddr := if J.has e "factory" then J.strOf e "factory" else J.strOf j "callee"
+  let factory := post.find? (fun a => J.strOf a "addr" == factoryAddr)
   let ret := J.strOf res "ret"
   let word0 := hexNat ((ret.take 64).toString)
   let word1 := hexNat ((ret.drop 64).toString)
   let note := J.strOf j "note"
   let mut ds := stat ds "vm.exec"
-  ds := stat ds ("create." ++ J.strOf e "init" ++ (if J.boolOf e "call_first" then ".afterCall" else ""))
+  ds := stat ds ("create." ++ J.strOf e "init" ++ (if J.boolOf e "call_first" then ".afterCall" else "") ++ (if J.boolOf e "nested" then ".nested" else ""))
   if J.strOf res "outcome" != "ok" then
     ds ← finding ds "monitor" "C16" "create:factory_outcome" id s!"{note}: the factory ended with {J.strOf res "outcome"} (a failed creation pushes 0 and execution goes on)"
     return ds
@@ -265,6 +266,12 @@ def handleExpect (ds : DS) (j : Json) : IO DS := do
     | some a =>
       if J.strOf a "code" != J.strOf e "runtime" then
         ds ← finding ds "monitor" "C16" "create:deploys_code" id s!"{note}: deployed code {J.strOf a "code"}, the init code returns {J.strOf e "runtime"}"
+      -- what the constructor saw of the call context (ORIGIN, CALLER), recorded in the new contract's storage
+      if J.has e "storage" then
+        let want := (J.arrOf e "storage").map (fun kv => match J.arr kv with | [k, v] => (hexNat (J.str k), hexNat (J.str v)) | _ => (0, 0))
+        let got := normStorage (parseStorage (J.get a "storage"))
+        if normStorage want != got then
+          ds ← finding ds "monitor" "C16" "create:constructor_context" id s!"{note}: the new contract's storage is {storageStr got}, the constructor should have recorded {storageStr (normStorage want)} (slot 1 = ORIGIN, slot 2 = CALLER)"
       if J.intOf a "balance" != J.intOf e "value" then
         ds ← finding ds "monitor" "C16,C18" "create:value_transferred" id s!"{note}: new contract holds {J.intOf a "balance"}, endowed with {J.intOf e "value"}"
     if word0 != hexNat derived then
